@@ -250,7 +250,7 @@ def r7_store_writers(ck, repo, res):
             ck.ob("R7-store-writers", fq, f"stmt:{short(st, 50)}", bad is None, "does not write the stored priorities" if bad is None else bad,
                   "" if bad is None else f"{bad} mutates the stored priority array outside initialize_priority / update_priority: sampling (or another read-only operation) permanently changes the sampling distribution", loc(mi, st)) if (bad or (isinstance(st, (ast.Assign, ast.AugAssign)) and any(isinstance(x, ast.Name) and is_store(x, node.id) for x in ast.walk(st)))) else None
     ck.floor("functions-touching-priority", n_fn, 5)
-    ck.floor("views-of-stored-priorities", n_alias, 2)
+    ck.count("views-of-stored-priorities", n_alias)
 
 
 def r8_multitask(ck, repo, nf):
@@ -275,24 +275,37 @@ def r8_multitask(ck, repo, nf):
     ck.need(len(s_calls) == 1, f"{MT}.sample_batch: expected exactly one self.buffers[...].sample_batch call")
     ck.need(len(u_calls) >= 1, f"{MT}.update_priority: no self.buffers[...].update_priority call (unrecognised idiom)")
     scfg, sn, sc_, s_ix = s_calls[0]
-    ok = len(u_calls) == 1 and u_calls[0][3] == s_ix and on_every_path_once(u_calls[0][0], [u_calls[0][1].id])
+    if len(u_calls) != 1 or not on_every_path_once(u_calls[0][0], [u_calls[0][1].id]):
+        ck.ob("R8-multitask-routing", MT + ".update_priority", "same-member-as-last-sample", False, f"update_priority -> {['self.buffers[' + u[3] + ']' for u in u_calls]}",
+              "exactly one member must receive the new priorities on every path", loc(mi, up))
+        return
+    u_ix = u_calls[0][3]
+    ck.need(u_ix.startswith("self.") and u_ix[5:].isidentifier(), f"{MT}.update_priority: member index `{u_ix}` is not a recorded attribute of self (unrecognised idiom)")
+    # value identity inside sample_batch: the member sampled from is buffers[V] and the recorded attribute holds the same V at that point
+    full = Scope(scfg, mi, {}, MT)
+    rv_ = sc_.func.value
+    if isinstance(rv_, ast.Name):
+        ds_ = scfg.defs_of(sn.id, rv_.id)
+        ck.need(len(ds_) == 1 and ds_[0].kind == "assign" and isinstance(ds_[0].value, ast.Subscript), f"{MT}.sample_batch: member alias `{rv_.id}` not recognised")
+        idx_val = nf.poly(ds_[0].value.slice, full, ds_[0].node).canon()
+    else:
+        ck.need(isinstance(rv_, ast.Subscript), f"{MT}.sample_batch: member receiver `{short(rv_)}` not recognised")
+        idx_val = nf.poly(rv_.slice, full, sn.id).canon()
+    w = [n for n in scfg.nodes if n.kind == "stmt" and isinstance(n.ast, ast.Assign) and any(dotted(t) == u_ix for t in n.ast.targets)]
+    rec_val = nf.poly(w[0].ast.value, full, w[0].id).canon() if len(w) == 1 else None
+    ok = len(w) == 1 and scfg.dominates(w[0].id, sn.id) and rec_val == idx_val
     ck.ob("R8-multitask-routing", MT + ".update_priority", "same-member-as-last-sample", ok,
-          f"sample_batch -> self.buffers[{s_ix}]; update_priority -> {['self.buffers[' + u[3] + ']' for u in u_calls]}",
-          "" if ok else "the new priorities must go to the member buffer that produced the last batch (its sampled_indices); another member's last-sampled entries would be overwritten instead", loc(mi, up))
-    # the index is an attribute recorded by sample_batch itself before the member call, and written nowhere else
-    ck.need(s_ix.startswith("self.") and s_ix[5:].isidentifier(), f"{MT}.sample_batch: member index `{s_ix}` is not an attribute of self (unrecognised idiom)")
-    w = [n for n in scfg.nodes if n.kind == "stmt" and isinstance(n.ast, ast.Assign) and any(dotted(t) == s_ix for t in n.ast.targets)]
-    ok = len(w) == 1 and scfg.dominates(w[0].id, sn.id)
-    ck.ob("R8-multitask-routing", MT + ".sample_batch", "records-sampled-member", ok, f"`{short(w[0].ast, 80) if w else None}` before the member's sample_batch", "" if ok else "sample_batch must record which member it samples from before delegating", loc(mi, sb))
+          f"sample_batch samples buffers[{idx_val[:60]}] and records {u_ix} = {(rec_val or 'nothing')[:60]}; update_priority -> self.buffers[{u_ix}]",
+          "" if ok else "the new priorities must go to the member buffer that produced the last batch (its sampled_indices): the index update_priority uses is not the one sample_batch sampled from", loc(mi, up))
     other = []
     for meth in repo.cls(MT).body:
         if isinstance(meth, ast.FunctionDef) and meth.name not in ("sample_batch", "__init__"):
             for n in ast.walk(meth):
                 if isinstance(n, (ast.Assign, ast.AugAssign)):
                     for t in (n.targets if isinstance(n, ast.Assign) else [n.target]):
-                        if dotted(t) == s_ix:
+                        if dotted(t) == u_ix:
                             other.append(f"{meth.name}: {short(n, 60)}")
-    ck.ob("R8-multitask-routing", MT, "sampled-member-single-writer", not other, f"{s_ix} written only by sample_batch", "" if not other else f"{other} overwrites the record of the last sampled member", loc(mi, repo.cls(MT)))
+    ck.ob("R8-multitask-routing", MT, "sampled-member-single-writer", not other, f"{u_ix} written only by sample_batch", "" if not other else f"{other} overwrites the record of the last sampled member", loc(mi, repo.cls(MT)))
     # every member's maximum is recomputed by reset_max_priority
     rcfg = nf.cfg_of(rs)
     loops_ = [n for n in rcfg.nodes if n.kind == "for" and dotted(n.ast.iter) == "self.buffers" and isinstance(n.ast.target, ast.Name)]
@@ -399,11 +412,12 @@ def run(ck, repo: Repo, tier: str):
     sfn = _m(repo, RB + "SubtrajectoryReplayBuffer", "add_sample")
     scfg = nf.cfg_of(sfn)
     srets = [n for n in scfg.nodes if n.kind == "stmt" and isinstance(n.ast, ast.Return)]
-    if len(srets) != 1 or srets[0].ast.value is None:
-        raise AnalysisError(f"{RB}SubtrajectoryReplayBuffer.add_sample: expected a single `return <written slots>` (unrecognised idiom)")
+    if not srets or any(r.ast.value is None for r in srets):
+        raise AnalysisError(f"{RB}SubtrajectoryReplayBuffer.add_sample: expected `return <written slots>` (unrecognised idiom)")
     load_idx = parse_expr("self.insert_idx")
     seen_sig, bad_sig = set(), []
-    for pth in enumerate_paths(scfg, scfg.entry, {srets[0].id}, max_paths=20000):
+    for pth in enumerate_paths(scfg, scfg.entry, {r.id for r in srets}, max_paths=20000):
+        ret_node = scfg.nodes[pth[-1][0]]
         pe = PathEval(nf, scfg, mi, "subtraj.add", {})
         written = []
         for nid, lab in pth[:-1]:
@@ -411,7 +425,7 @@ def run(ck, repo: Repo, tier: str):
             if nd.kind == "stmt" and isinstance(nd.ast, (ast.Assign, ast.AugAssign)) and any(dotted(t) == "self.insert_idx" for t in (nd.ast.targets if isinstance(nd.ast, ast.Assign) else [nd.ast.target])):
                 written.append(pe.ev(load_idx).canon())
             pe.step(nid, lab)
-        rv = pe.ev(srets[0].ast.value)
+        rv = pe.ev(ret_node.ast.value)
         got = []
         for mono, c in rv.terms.items():
             for a_, e_ in mono:
